@@ -227,8 +227,13 @@ Proof.
       apply ok_or_frame; [|exact Hwf]. intros bs Hb. apply cstore_length in Hb; [|exact Hc]. cbn in Hb. lia.
   - (* TString *) destruct k; try apply frame_refl.
     destruct (if en then string_validate_one n v else None); [apply frame_refl|].
-    destruct (encode_ascii v); [apply frame_refl|].
-    apply ok_or_frame; [|exact Hwf]. intros bs Hb. now apply s_set_length in Hb.
+    destruct (encode_ascii v) as [x|cs]; [apply frame_refl|].
+    set (m0 := if (1 <? n)%nat && (length cs <? n)%nat then splice m (f_off f) (repeat 0 n) else m).
+    assert (F0 : frame (f_off f) n m m0).
+    { unfold m0. destruct ((1 <? n)%nat && (length cs <? n)%nat); [|apply frame_refl].
+      apply frame_splice; rewrite ?repeat_length; lia. }
+    eapply frame_trans; [exact F0|]. destruct F0 as [L0 _].
+    apply ok_or_frame; [|lia]. intros bs Hb. now apply s_set_length in Hb.
   - (* TArr *)
     assert (Hset : forall k' v', frame (f_off f) (n * elem_size e) m (snd (arr_setitem en e n (f_off f) m k' v'))).
     { intros k' v'. unfold arr_setitem.
@@ -304,17 +309,13 @@ Qed.
 (* the float-array obligation, discharged in Proofs/FloatArrayProofs.v *)
 Definition float_items_ok_stmt : Prop := forall ct items,
   fct_ok ct = true -> float_validate_many ct items = None ->
-  match items with x :: _ => is_nan_val x = false | [] => True end ->
   Forall (store_ok (cstore (fst ct) (snd ct))) items.
 
-Definition excl_e (e : elem) (v : pyval) : bool :=
-  match e with EFloat _ _ => head_not_nan v | _ => true end.
-
-Lemma arr_items_ok : forall e v items, float_items_ok_stmt -> elem_ok e = true -> excl_e e v = true ->
+Lemma arr_items_ok : forall e v items, float_items_ok_stmt -> elem_ok e = true ->
   match iter_items v with Some its => elem_validate_many e v its | None => elem_validate_one e v end = None ->
   iter_items (bytearray_conv e v) = Some items -> Forall (store_ok (elem_store e)) items.
 Proof.
-  intros e v items HF He Hx Hv Hi. unfold elem_store. destruct e as [vid r|vid ct|r]; cbn [elem_ct fst snd elem_ok] in *.
+  intros e v items HF He Hv Hi. unfold elem_store. destruct e as [vid r|vid ct|r]; cbn [elem_ct fst snd elem_ok] in *.
   - (* ints *) cbn [bytearray_conv] in Hi. replace (match v with _ => v end) with v in Hi by (destruct v; reflexivity).
     rewrite Hi in Hv. cbn [elem_validate_many] in Hv. unfold int_validate_many in Hv.
     destruct (forallb is_intlike items) eqn:Ef; [|discriminate].
@@ -322,8 +323,6 @@ Proof.
     unfold irec_ok in He. lia.
   - (* floats *) cbn [bytearray_conv] in Hi. replace (match v with _ => v end) with v in Hi by (destruct v; reflexivity).
     rewrite Hi in Hv. cbn [elem_validate_many] in Hv. apply HF; auto.
-    cbn [excl_e] in Hx. unfold head_not_nan in Hx. rewrite Hi in Hx. destruct items; [exact I|].
-    now apply negb_true_iff in Hx.
   - (* bytes *) unfold byte_irec_ok in He.
     assert (Hk : c_kind r <=? 1 = true) by lia.
     destruct v; cbn [bytearray_conv] in Hi;
@@ -338,9 +337,9 @@ Proof.
 Qed.
 
 Lemma arr_setitem_atomic : forall e n off m k v x m', float_items_ok_stmt -> elem_ok e = true ->
-  excl_e e v = true -> arr_setitem true e n off m k v = (Some x, m') -> m' = m.
+  arr_setitem true e n off m k v = (Some x, m') -> m' = m.
 Proof.
-  intros e n off m k v x m' HF He Hx H. unfold arr_setitem in H.
+  intros e n off m k v x m' HF He H. unfold arr_setitem in H.
   destruct (match iter_items v with Some items => elem_validate_many e v items | None => elem_validate_one e v end) eqn:Ev;
     [now inversion H|].
   eapply carr_assign_atomic; [|exact H]. intros items Hi. eapply arr_items_ok; eauto.
@@ -360,11 +359,11 @@ Proof.
 Qed.
 
 Theorem set_atomic : forall f k m v e m', float_items_ok_stmt ->
-  ftype_ok (f_ty f) = true -> excl (f_ty f) v = true ->
+  ftype_ok (f_ty f) = true ->
   set true f k m v = (Some e, m') -> m' = m.
 Proof.
-  intros f k m v e m' HF Hok Hx H. unfold set in H.
-  destruct (f_ty f) as [r|ct|r| |n|el n|cls size|cls esz n] eqn:Et; cbn [ftype_ok excl] in *.
+  intros f k m v e m' HF Hok H. unfold set in H.
+  destruct (f_ty f) as [r|ct|r| |n|el n|cls size|cls esz n] eqn:Et; cbn [ftype_ok] in *.
   - destruct k; try now inversion H. destruct (int_validate_one r v); [now inversion H|]. eapply ok_or_atomic; eauto.
   - destruct k; try now inversion H. destruct (float_validate_one ct v); [now inversion H|]. eapply ok_or_atomic; eauto.
   - destruct k; try now inversion H. destruct (byte_validate_one r v); [now inversion H|]. eapply ok_or_atomic; eauto.
@@ -373,9 +372,12 @@ Proof.
     destruct (char_validate_one v); [now inversion H|].
     destruct (encode_ascii v); [now inversion H|]. eapply ok_or_atomic; eauto.
   - destruct k; try now inversion H. destruct (string_validate_one n v); [now inversion H|].
-    destruct (encode_ascii v); [now inversion H|]. eapply ok_or_atomic; eauto.
-  - assert (Hxe : forall v', excl (TArr el n) v' = excl_e el v') by (intros; destruct el; reflexivity).
-    assert (Hset : forall k', arr_setitem true el n (f_off f) m k' v = (Some e, m') -> m' = m).
+    destruct (encode_ascii v) as [x|cs]; [now inversion H|].
+    (* the clearing only happens when the store that follows cannot fail *)
+    destruct ((1 <? n)%nat && (length cs <? n)%nat) eqn:Ec; [|eapply ok_or_atomic; eauto].
+    exfalso. unfold s_set in H. pose proof (take_until_nul_length cs).
+    destruct (length (take_until_nul cs) <? n)%nat eqn:E1; [discriminate H|]. lia.
+  - assert (Hset : forall k', arr_setitem true el n (f_off f) m k' v = (Some e, m') -> m' = m).
     { intros k' H'. eapply arr_setitem_atomic; eauto. }
     destruct k; try (now apply Hset in H).
     destruct v; try (now apply Hset in H).
